@@ -124,7 +124,7 @@ func (s *session) project() tf.M {
 			reqs = append(reqs, tf.M{
 				"present": true, "vals": vals, "min": int(rq.MinCount), "rh": int(rq.RequestHeight),
 				"rt": int(rq.RequestTime - s.w.Cfg.GenesisTime.Unix()),
-				"ok": rq.OracleScriptID == world.ScriptOK3 || rq.OracleScriptID == world.ScriptOK1,
+				"ok": rq.OracleScriptID == world.ScriptOK3 || rq.OracleScriptID == world.ScriptOK1 || rq.OracleScriptID == world.ScriptOKNil,
 			})
 		} else {
 			reqs = append(reqs, tf.M{"present": false})
@@ -283,9 +283,13 @@ func (s *session) apply(step tf.M) {
 	case "Request":
 		ask, min := tf.Int(step, "ask", 1), tf.Int(step, "min", 1)
 		ok := tf.Bool(step, "ok", true)
+		// three kinds of oracle script: returns data (SUCCESS), returns nothing (FAILURE), and - every third
+		// successful request - returns ZERO bytes, which is still SUCCESS (with an empty result)
 		osid := oracletypes.OracleScriptID(world.ScriptOK3)
 		if !ok {
 			osid = world.ScriptFail1
+		} else if (k.GetRequestCount(s.r.Ctx)+uint64(ask)+uint64(min))%3 == 0 {
+			osid = world.ScriptOKNil
 		}
 		before := k.GetRequestCount(s.r.Ctx)
 		clientID := fmt.Sprintf("cl-%d", before+1)
